@@ -89,15 +89,24 @@ struct Resolver {
 
 struct Info { unsigned notes = 0, fallback = 0, perc_rule = 0, open = 0, rejected = 0, gs_lsb = 0, xg_sfx = 0; };
 
-static int decode_serial(size_t from, size_t c) {
+// The serial is read from the four decay-2 registers of the chip channel as the chip holds them NOW (last value written, whenever that
+// was): an implementation may skip reloading a patch the channel already has.
+static std::map<unsigned, int> g_shadow; static size_t g_shadow_pos = 0;
+static void shadow_reset() { g_shadow.clear(); g_shadow_pos = 0; }
+static void shadow_absorb() {
+    TapState &t = tap(); if(g_shadow_pos > t.log.size()) g_shadow_pos = 0;
+    for(; g_shadow_pos < t.log.size(); g_shadow_pos++) { const TapRec &w = t.log[g_shadow_pos]; if(w.kind != 2 && w.reg >= 0x70 && w.reg <= 0x7F) g_shadow[((unsigned)w.chip << 16) | ((unsigned)w.port << 8) | w.reg] = (int)w.val; }
+}
+static int decode_serial(size_t, size_t c) {
     unsigned port = (unsigned)((c % 6) / 3), cc = (unsigned)(c % 3), chip = (unsigned)(c / 6);
-    int v[4] = {-1, -1, -1, -1}; TapState &t = tap();
-    for(size_t i = from; i < t.log.size(); i++) { const TapRec &w = t.log[i]; if(w.kind == 2 || w.chip != chip || w.port != port) continue; if(w.reg >= 0x70 && w.reg <= 0x7F && (w.reg & 3) == cc) v[(w.reg - 0x70) / 4] = (int)w.val; }
-    if(v[0] < 0 || v[1] < 0 || v[2] < 0 || v[3] < 0) return -2;
+    shadow_absorb();
+    int v[4];
+    for(int k = 0; k < 4; k++) { auto it = g_shadow.find((chip << 16) | (port << 8) | (0x70 + 4 * (unsigned)k + cc)); if(it == g_shadow.end()) return -2; v[k] = it->second; }
     return (v[0] & 0x1F) | ((v[1] & 0x1F) << 5) | ((v[2] & 0x1F) << 10) | ((v[3] & 0x0F) << 15);
 }
 
 static void run(const Case &c, Info &info) {
+    shadow_reset();
     g_serial = 0;
     Layout L; std::map<int, int> serial_drumkey;
     World W; W.start(8000, EMU_NP2, 1);
